@@ -875,11 +875,6 @@ Proof.
   - intros c Hc. injection Hc as <-. cbn [in_force]. now rewrite Hk, Nat.eqb_refl, Eby.
 Qed.
 
-(** A first Pause (controller not paused) opens a generation never seen before:
-    no earlier event mentions it as the channel of a controller. *)
-Definition mentions_gen (g : nat) (e : event) : Prop :=
-  exists pc st, e_k e = KGateSet pc st (Some g) \/ e_k e = KGateRead pc st (Some g).
-
 (** * Redeployed copies share the controller of the original *)
 
 Definition same_lin (s s' : gst) : Prop :=
@@ -1259,4 +1254,60 @@ Proof.
   destruct (closer h g) as [st'|]; [intros H; injection H as <-; now apply IH|].
   unfold is_close. destruct (e_k e); try discriminate. destruct chan as [g'|]; [|discriminate].
   destruct (Nat.eqb g g'); [|discriminate]. destruct st0; try discriminate; intros H; injection H as <-; discriminate.
+Qed.
+
+(** * The statements of props/C07.v in unfolded form *)
+
+Theorem parked_story_flat tr r e :
+  gate_accepts tr = true -> In e tr -> is_pread r e ->
+  exists pre held aw mid rest h w a status t3 svc t5 who sb,
+    tr = pre ++ ev_read r h :: held ++ ev_wake r h w :: aw ++
+         mkEv t3 (AReq r) (KGateResult r svc a) :: mid ++ mkEv t5 who (KRespond r status sb) :: rest /\
+    quiet r pre /\ quiet r held /\ quiet r aw /\ pathonly r mid /\ (a = AProceed \/ quiet r mid) /\ quiet r rest /\
+    state_at (rev pre) (h_pc h) = GPaused /\ chan_at (rev pre) (h_pc h) = Some (h_gen h) /\
+    h_fail h = in_force (rev pre) (h_pc h) /\
+    (w_chan w = true -> closer (rev (pre ++ ev_read r h :: held)) (h_gen h) <> None) /\
+    (w_chan w = false -> w_t w = h_tread h + h_fail h) /\
+    a = (if w_chan w
+         then match state_at (rev (pre ++ ev_read r h :: held)) (h_pc h) with GStopped => AStopped | _ => AProceed end
+         else ATimedOut) /\
+    (a = AStopped -> status = 503) /\ (a = ATimedOut -> status = 504).
+Proof.
+  intros Hacc Hin Hp.
+  destruct (parked_story tr r e Hacc Hin Hp) as (h & w & a & status & pre & held & aw & mid & rest & t3 & svc & t5 & who & sb &
+    Htr & Q1 & Q2 & Q3 & P4 & Hq & Q5 & (S1 & S2 & S3) & (W1 & W2 & W3) & Ha & Hs).
+  exists pre, held, aw, mid, rest, h, w, a, status, t3, svc, t5, who, sb.
+  repeat (split; [assumption|]). split; [|split; intros ->; exact Hs].
+  rewrite Ha. unfold action_of. now rewrite W3.
+Qed.
+
+Theorem outcome_cases (w : wake) (hb : trace) (pc g : nat) (a : gaction) :
+  a = (if w_chan w then match state_at hb pc with GStopped => AStopped | _ => AProceed end else ATimedOut) ->
+  (a = ATimedOut <-> w_chan w = false) /\
+  (a = AStopped <-> w_chan w = true /\ state_at hb pc = GStopped) /\
+  (a = AProceed <-> w_chan w = true /\ state_at hb pc <> GStopped) /\
+  (forall st, w_chan w = true -> closer hb g = Some st -> state_at hb pc = st ->
+              (a = AProceed <-> st = GRunning) /\ (a = AStopped <-> st = GStopped)).
+Proof.
+  intros ->. destruct (w_chan w) eqn:Ew.
+  - destruct (state_at hb pc) eqn:Es; (split; [|split; [|split]]); try (intuition congruence).
+    all: intros st _ Hc Hst; subst st; apply closer_not_paused in Hc; intuition congruence.
+  - split; [|split; [|split]]; try (intuition congruence).
+Qed.
+
+Theorem held_between tr r e :
+  gate_accepts tr = true -> In e tr -> is_pread r e ->
+  exists pre held rest h w,
+    tr = pre ++ ev_read r h :: held ++ ev_wake r h w :: rest /\
+    forall x, In x held ->
+      (forall svc lb, e_k x <> KPick r svc lb) /\ (forall lb t, e_k x <> KLbClaim lb t r) /\
+      (forall t, e_k x <> KClaim t r) /\ (forall t, e_k x <> KClaimRefused t r) /\
+      (forall st sb, e_k x <> KRespond r st sb) /\ (forall svc a, e_k x <> KGateResult r svc a).
+Proof.
+  intros Hacc Hin Hp.
+  destruct (parked_story tr r e Hacc Hin Hp) as (h & w & a & status & pre & held & aw & mid & rest & t3 & svc & t5 & who & sb &
+    Htr & _ & Q2 & _).
+  exists pre, held, (aw ++ mkEv t3 (AReq r) (KGateResult r svc a) :: mid ++ mkEv t5 who (KRespond r status sb) :: rest), h, w.
+  split; [exact Htr|]. intros x Hx. pose proof (quiet_not_in _ _ _ Q2 Hx) as Hn. unfold concerns, req_of in Hn.
+  repeat split; intros; intros Hk; rewrite Hk in Hn; now apply Hn.
 Qed.
